@@ -1,4 +1,5 @@
 import WindVerif.Proofs.PoolLife
+import WindVerif.Proofs.PoolJoinTimeout
 /-!
 # C04 — Worker lifecycle: begin first once, end last once, quota kept, none left running
 
@@ -12,6 +13,12 @@ waited for has completed `begin()`), `ready_mid_slot` / `ready_mid_next` (which 
 of the live list at the moment the loop arrives there, one wait per slot, in order), `ready_mid_listed` (the caller's view:
 listed before the call and after it ⇒ `begin()` completed).  The theorems of C01–C03 hold for this
 caller program too (same statements).
+
+A finite `join_timeout` (`Cfg.joinTimeout`: timed joins in the replace thread and in `__exit__`; the worker's `end()` after
+the post of its wid is then a step of its own, pc `.ending`) is part of the model too: every theorem here holds for these
+configurations (same statements) — EXCEPT `exit_joins_all`, which is false then and carries the hypothesis
+`cfg.joinTimeout = false` (see `C02.exit_returns_with_running_worker`, `C02.imap_maximal_all_exited`).
+`lifecycle_counts`: begin / end at most once, exactly once after the exit; `ending_only_joinTimeout`.
 -/
 namespace WindVerif.C04
 open WindVerif.Pool
@@ -76,17 +83,41 @@ theorem ready_mid_listed (cfg : Cfg) (s₀ : St) (h : Reach cfg s₀) (w₀ : Na
     ∃ w ∈ s₁.workers, w.wid = v ∧ w.bf = true ∧ WEv.begin ∈ w.log := by
   first | exact WindVerif.Pool.ready_mid_listed .. | (apply WindVerif.Pool.ready_mid_listed <;> assumption)
 
-/-- when the pool context has been left (no join timeout), no worker is running — replaced workers included -/
-theorem exit_joins_all (cfg : Cfg) (s : St) (h : Reach cfg s) (hd : s.cpc = .done) : AllExited s := by
+/-- when the pool context has been left (no join timeout: `join_timeout=None`), no worker is running — replaced workers
+included.  HYPOTHESIS `cfg.joinTimeout = false` ADDED: with a finite join timeout the statement is false
+(`C02.exit_returns_with_running_worker`) -/
+theorem exit_joins_all (cfg : Cfg) (hjt : cfg.joinTimeout = false) (s : St) (h : Reach cfg s) (hd : s.cpc = .done) :
+    AllExited s := by
   first | exact WindVerif.Pool.exit_joins_all .. | (apply WindVerif.Pool.exit_joins_all <;> assumption)
 
+/-- non-vacuity: the default (`join_timeout=None`) -/
+example : (⟨1, none, none, false, none, false, [⟨1, true⟩], [], [(0, 0)], false, false⟩ : Cfg).joinTimeout = false := by decide
+
+/-- every configuration (faults, timed joins): `begin` at most once and `end_` at most once in every worker's log, both
+exactly once when the worker has exited; at `.ending` `begin` once and `end_` not yet -/
+theorem lifecycle_counts (cfg : Cfg) (s : St) (h : Reach cfg s) (w : Worker) (hw : w ∈ s.workers) :
+    w.log.count .begin ≤ 1 ∧ w.log.count .end_ ≤ 1 ∧
+    (w.pc = .exited → w.log.count .begin = 1 ∧ w.log.count .end_ = 1) ∧
+    (w.pc = .ending → w.log.count .begin = 1 ∧ w.log.count .end_ = 0) := by
+  first | exact WindVerif.Pool.lifecycle_counts .. | (apply WindVerif.Pool.lifecycle_counts <;> assumption)
+
+/-- a worker is between the post of its wid and its `end()` only in a pool with a finite join timeout (without one the
+model — and every trace — is the old one) -/
+theorem ending_only_joinTimeout (cfg : Cfg) (s : St) (h : Reach cfg s) (w : Worker) (hw : w ∈ s.workers)
+    (hpc : w.pc = .ending) : cfg.joinTimeout = true := by
+  first | exact WindVerif.Pool.ending_only_joinTimeout .. | (apply WindVerif.Pool.ending_only_joinTimeout <;> assumption)
+
+/-- non-vacuity of `ending_only_joinTimeout` / the `.ending` clause of `lifecycle_counts`: such a state is reachable -/
+example : (run (init jtCfg) jtSched).map (fun s => s.workers.map (fun w => (w.wid, w.pc))) =
+    some [(0, .ending), (1, .bfClear)] := by decide
+
 /-- non-vacuity: a worker whose functor raises at its first chunk still logs begin · item · end -/
-example : ((run (init ⟨1, none, none, false, none, false, [⟨1, true⟩], [], [(0, 0)], false⟩)
+example : ((run (init ⟨1, none, none, false, none, false, [⟨1, true⟩], [], [(0, 0)], false, false⟩)
     [.c, .w 0, .w 0, .c, .c, .c, .c, .f, .w 0]).map (fun s => s.workers.map (·.log))) =
     some [[.begin, .item 0, .end_]] := by decide
 
 /-- a factory pool with 2 workers, quota 1, one unordered call of 2 chunks, `until_all_ready()` in the middle of the call -/
-def midCfg : Cfg := ⟨2, none, none, true, some 1, false, [⟨2, false⟩], [], [], true⟩
+def midCfg : Cfg := ⟨2, none, none, true, some 1, false, [⟨2, false⟩], [], [], true, false⟩
 
 /-- enter, start of the call, both workers through `begin()`, the feeder sends chunk 0, worker 0 delivers it, the consumer
 drains it: the first result of the call is emitted and the consumer stands at the wait for worker 0 (slot 0) -/
